@@ -196,6 +196,24 @@ func init() {
 		Outside:   "trees with more than one listed entry; the directory being itself absent",
 	})
 	reg(&Property{
+		ID: "C11",
+		Instances: func(tier string) []Instance {
+			out := []Instance{
+				inst("internal/receiver", "HMetadata", "n", 1, "m", 1),
+				inst("internal/sender", "HFlistEncode", "n", 1, "split", 0),
+				inst("internal/receiver", "HFlistDecode", "k", 1, "opts", -1, "same", 0),
+			}
+			if tier == "thorough" {
+				out = append(out, inst("internal/receiver", "HMetadata", "n", 2, "m", 2), inst("internal/sender", "HFlistEncode", "n", 3, "split", 0))
+			}
+			return out
+		},
+		MustReach: []string{"done", "transferred", "retouched", "kept-perms", "dir", "link", "device", "rdev", "target"},
+		Redirects: sym.VfsRedirects(),
+		Bounds:    "wire: one entry of any of the 7 types with symbolic permission bits, int32 mtime, 32-bit uid/gid/rdev, 1-byte link target, every subset of -l -o -g -D -c (devices and specials switched together), sender encoder -> reference decoder and reference encoder -> receiver decoder; destination: the same entry synchronised over any prior object (8 kinds, arbitrary metadata) under every subset of the preserve options, as root",
+		Outside:   "effect of chmod/chown/utimes system calls (model); name-service lookups (always fail in the model: ids are kept numerically); --devices without --specials or vice versa (see C14); hard links",
+	})
+	reg(&Property{
 		ID: "C12",
 		Instances: func(tier string) []Instance {
 			out := []Instance{
@@ -222,6 +240,7 @@ func init() {
 				inst("internal/receiver", "HFlistDecode", "k", 1, "opts", -1, "same", 0),
 				inst("internal/receiver", "HFlistDecode", "k", 2, "opts", 31, "same", 31),
 				inst("internal/receiver", "HFlistDecode", "k", 2, "opts", 4, "same", 16),
+				inst("internal/sender", "HFlistEncode", "n", 1, "split", 0),
 			}
 			if tier == "thorough" {
 				out = append(out,
